@@ -86,14 +86,40 @@ WrapP(kind, mem, inst, m, ot, mot, labs, tab, np, prog) ==
             w |-> IF kind = "mt" THEN m ELSE 1, nm |-> m, mem |-> mem, labels |-> labs, tab |-> tab,
             pool |-> PoolOf(2, inst, np, IF mem = "mock" /\ kind = "mc" THEN 0 ELSE NX, FALSE),
             prog |-> prog]]
-\* instance 4 of the naive-Bayes types: two mirror-image classes and a pool whose first row is an exact
-\* tie between them (integer data, the two joint log-likelihoods are the same float)
-TiePool(m) == IF m = "gnb" THEN << <<12, 4>>, <<4, 4>>, <<20, 4>> >> ELSE << <<4, 4>>, <<8, 4>>, <<4, 8>> >>
-TieBase(m, ids) ==
+\* tie family -------------------------------------------------------------------------------------
+\* Fitted instances with an exact mirror symmetry and pool rows exactly ON the decision boundary (integer /
+\* dyadic data; x -> -x is exact in floating point, so the two competing scores are the same float).
+\* Which label a tied row gets is not prescribed: the relation only demands the SAME label through every
+\* batch, order, calling form, single-observation API and prior content of the caller's output buffer
+\* ("prefill": in-place call into a buffer holding each valid label in turn).
+TieModels == {"kmeans", "gmm", "logit", "mlogit", "svc", "svo", "tree", "gnb", "mnb"}
+TieInsts(m) == IF m \in {"gnb", "mnb"} THEN {4}
+               ELSE IF m \in {"kmeans", "svc", "svo"} THEN {5, 6, 7}      \* L2 / L1 / Linf ; C / nu / Gaussian ; nu = .5 / .25 / .75
+               ELSE IF m \in {"logit", "tree"} THEN {5, 6} ELSE {5}
+TiePool(m) ==
+  CASE m = "gnb"    -> << <<12, 4>>, <<4, 4>>, <<20, 4>> >>                       \* (3,1) between the classes at x = 1 and x = 5
+    [] m = "mnb"    -> << <<4, 4>>, <<8, 4>>, <<4, 8>> >>
+    [] m = "kmeans" -> << <<0, 4>>, <<0, 12>>, <<0, -8>>, <<-4, 4>>, <<4, 0>> >>    \* centroids (-2,1), (2,1), (0,10)
+    [] m = "gmm"    -> << <<0, 4>>, <<0, 12>>, <<-120, 4>>, <<120, 4>> >>           \* components at x = -30 and x = 30
+    [] m = "mlogit" -> << <<0, 0>>, <<4, 4>>, <<-4, 8>> >>                          \* no intercept: (0,0) scores 0 for every class
+    [] m = "svo"    -> << <<4, 12>>, <<4, -8>>, <<8, 0>>, <<0, 0>> >>               \* hyperplane x1 = 1
+    [] m = "tree"   -> << <<0, 20>>, <<8, 24>>, <<-4, 20>>, <<4, 20>>, <<12, 24>> >> \* thresholds x1 = 0 and x1 = 2
+    [] OTHER        -> << <<0, 4>>, <<0, -12>>, <<-4, 0>>, <<4, 8>> >>              \* logit, svc: hyperplane x1 = 0
+TieLabels(m) == CASE m \in {"kmeans", "tree"} -> <<0, 1, 2>> [] m = "logit" -> <<3, 7>> [] m = "mlogit" -> <<10, 11, 12>>
+                  [] OTHER -> <<0, 1>>
+TieBatches(n) == { [i \in 1..n |-> i], [i \in 1..n |-> n + 1 - i], <<1, 1, 2>>, <<2, 3, 1>>, <<1>> }
+Prefills(m, ids) ==
+  LET ls == TieLabels(m) IN
+  [q \in 1..(2 * Len(ls)) |->
+     IF q % 2 = 1 THEN [st |-> "own",  fm |-> "prefill", ly |-> "c",  ids |-> ids, pv |-> ls[(q + 1) \div 2]]
+                  ELSE [st |-> "view", fm |-> "prefill", ly |-> "rs", ids |-> ids, pv |-> ls[q \div 2]]] \o
+  (IF m = "kmeans" THEN [q \in 1..Len(ls) |-> [st |-> "view", fm |-> "row1p", ly |-> "c", ids |-> ids, pv |-> ls[q]]] ELSE <<>>)
+TieBase(m, inst, ids) ==
   [kind |-> "plain",
-   inp |-> [model |-> m, inst |-> 4, ft |-> "f64", ot |-> "lab", mot |-> "fx", nf |-> 2, w |-> 1,
-            nm |-> 0, mem |-> "self", labels |-> <<>>, tab |-> <<>>,
-            pool |-> TiePool(m), prog |-> Prog(ids, 3, TRUE, FALSE)]]
+   inp |-> [model |-> m, inst |-> inst, ft |-> "f64", ot |-> "lab", mot |-> "fx", nf |-> 2, w |-> 1,
+            nm |-> 0, mem |-> "self", labels |-> <<>>, tab |-> <<>>, fam |-> "tie",
+            pool |-> TiePool(m),
+            prog |-> Prog(ids, Len(TiePool(m)), TRUE, HasRow1(m)) \o Prefills(m, ids)]]
 
 Wrap(kind, mem, inst, m, ot, mot, labs, tab, np, ids) == WrapP(kind, mem, inst, m, ot, mot, labs, tab, np, Prog(ids, np, FALSE, FALSE))
 
@@ -150,8 +176,8 @@ Init ==
   \/ \E m \in Models, inst \in Insts, ft \in Fts, ids \in Batches(P, MaxLen) :
        /\ ft = "f32" => (HasF32(m) /\ Len(ids) <= MaxLen32)
        /\ case = Base(m, inst, ft, ids)
-  \/ \E m \in Models \cap {"gnb", "mnb"}, ids \in {<<1>>, <<1, 1>>, <<1, 2, 3>>, <<3, 1, 2>>} :
-       case = TieBase(m, ids)
+  \/ \E m \in Models \cap TieModels : \E inst \in TieInsts(m), ids \in TieBatches(Len(TiePool(m))) :
+       case = TieBase(m, inst, ids)
   \/ \E m \in Models, inst \in Insts : \E o \in Orderings(inst, NonNeg(m)) :
        case = OrdBase(m, inst, o)
   \/ \E inst \in Insts : \E o \in Orderings(inst, FALSE) :
